@@ -153,9 +153,65 @@ fn one(ctx: &mut Ctx, env: &Env, rng: &mut Rng, base: &Engine, rv: &RefVoice, de
     }
 }
 
+/// state-level law through the public API: mean' = limit(mean + h ln2/12, ln 20, ln 20000)
+fn state_means(ctx: &mut Ctx, env: &Env, rng: &mut Rng, bundled: &Engine, idx: usize) {
+    use jbonsai::model::{MeanVari, Models, StreamParameter};
+    let h = match idx % 5 {
+        0 => *rng.pick(&[24.0, -24.0, -23.5, 23.5, -23.25, 12.0, -12.0]),
+        _ => rng.uniform(-24.0, 24.0),
+    };
+    let mut sp: StreamParameter = if idx % 2 == 0 {
+        let labels = env.corpus.random_utterance(rng, 4, 30);
+        let models = Models::new(&labels, &bundled.voices, bundled.condition.get_interporation_weight());
+        models.model_stream(1).stream
+    } else {
+        // synthetic states incl. means close to both limits
+        let n = rng.range(1, 40);
+        StreamParameter::new(
+            (0..n)
+                .map(|_| {
+                    let m = match rng.below(4) {
+                        0 => rng.uniform(2.99, 3.4),
+                        1 => rng.uniform(9.5, 9.91),
+                        2 => 0.0,
+                        _ => rng.uniform(3.5, 7.0),
+                    };
+                    (vec![MeanVari(m, rng.uniform(0.001, 0.1)), MeanVari(rng.uniform(-0.1, 0.1), 0.01), MeanVari(0.0, 0.01)], rng.f64())
+                })
+                .collect(),
+        )
+    };
+    let before: Vec<(Vec<MeanVari>, f64)> = sp.to_vec();
+    sp.apply_additional_half_tone(h);
+    let mut limited = 0;
+    for (i, ((b, bw), (a, aw))) in before.iter().zip(sp.iter()).enumerate() {
+        let want = if h == 0.0 { b[0].0 } else { (b[0].0 + h * HT).clamp(MIN_LF0, MAX_LF0) };
+        if want == MIN_LF0 || want == MAX_LF0 {
+            limited += 1;
+        }
+        let same_rest = b.len() == a.len() && b.iter().zip(a.iter()).skip(1).all(|(x, y)| x == y) && b[0].1.to_bits() == a[0].1.to_bits() && bw.to_bits() == aw.to_bits();
+        if !((a[0].0 - want).abs() <= 1e-12 * (1.0 + want.abs())) || !same_rest {
+            ctx.violation(
+                "state-mean-not-shifted-within-limits",
+                J::obj().set("h", h).set("state", i).set("mean_before", b[0].0).set("mean_after", a[0].0).set("expected", want).set("other_components_untouched", same_rest),
+            );
+            return;
+        }
+    }
+    ctx.count("state_means_checked", before.len() as f64);
+    ctx.count("state_means_at_a_limit", limited as f64);
+    if limited > 0 {
+        ctx.nontrivial(mix(&[77, (h * 1000.0) as i64 as u64, before.len() as u64, limited as u64]));
+    }
+}
+
 pub fn run(ctx: &mut Ctx) {
     let env = Env::new(ctx);
     let bundled = env.load_bundled();
+    let n = ctx.n(400, 20000);
+    ctx.run_cases("state-means", n, false, |ctx, rng, idx| {
+        state_means(ctx, &env, rng, &bundled, idx);
+    });
     let n = ctx.n(400, 8000);
     ctx.run_cases("bundled", n, false, |ctx, rng, idx| {
         one(ctx, &env, rng, &bundled, &env.bundled_ref, "bundled", idx);
